@@ -106,7 +106,7 @@ def run(report, index, tier):
     c14.rules(report, index)
     table = T.table('indent', indent_str='  ')['layout_handlers']
     from .runs import uniformity_rule
-    uniformity_rule(report, M, T, 'R20.5', [('indent table', table)])
+    uniformity_rule(report, M, T, 'R20.6', [('indent table', table)])
     K = lambda n: Sym(RULETYPES_MOD, n)   # noqa: E731
     report.explanation = (
         'The definitions table and the indent rule table are analysed as '
